@@ -118,6 +118,19 @@ Section LoopProofs.
       + discriminate.
   Qed.
 
+  Lemma g_from_le : forall es w limit x last step consumed r k c',
+    g_from es w limit x last step consumed = (r, k, c') -> (k <= consumed + length w)%nat.
+  Proof.
+    induction es as [|e es IH]; intros w limit x last step consumed r k c' H.
+    - unfold g_from in H. cbn [gen_loop] in H. injection H as _ <- _. lia.
+    - rewrite g_from_cons in H.
+      destruct (iter e (trunc limit w) limit x) as [l' x' len adv| |] eqn:Ei.
+      + destruct (g_iter_trunc _ _ _ _ _ _ _ _ Ei) as [Hadv _].
+        apply IH in H. rewrite skipn_length in H. lia.
+      + injection H as _ <- _. lia.
+      + injection H as _ <- _. lia.
+  Qed.
+
   Lemma g_step_from rs es c w :
     gen_step iter rs es c w =
     if rs (cstep c)
@@ -325,3 +338,54 @@ Proof.
   replace (0 <? Z.of_nat (S n)) with true by (symmetry; apply Z.ltb_lt; lia).
   reflexivity.
 Qed.
+
+(* ------------------------------------------------------------------ *)
+(* 6. ber_decode_primitive under a tag_mode *)
+
+Lemma primm_loop_from es w : gen_loop entry_iter es w (-1) 0 0 O O = g_from _ entry_iter es w (-1) 0 0 O O.
+Proof. reflexivity. Qed.
+
+Lemma primm_step_more mode tags c p k c' : primm_step mode tags c p = (MORE, k, c') -> k = O /\ c' = c.
+Proof.
+  unfold primm_step.
+  destruct (gen_loop entry_iter (entries mode 0 tags) p (-1) 0 0 0 0) as [[r n] cx].
+  destruct r.
+  - destruct (cleft cx <=? zlen (skipn n p)); [discriminate|]. intros H; injection H as <- <-; auto.
+  - intros H; injection H as <- <-; auto.
+  - discriminate.
+Qed.
+
+Theorem primm_coherent mode tags : coherent (primm_step mode tags).
+Proof.
+  split.
+  - intros c p k c' H. destruct (primm_step_more _ _ _ _ _ _ H) as [-> ->].
+    split; [lia|]. intros more. cbn [skipn].
+    destruct (primm_step mode tags c (p ++ more)) as [[a b] d]. reflexivity.
+  - intros c p r k c' H Hr more. unfold primm_step in *.
+    rewrite primm_loop_from in *.
+    destruct (g_from _ entry_iter (entries mode 0 tags) p (-1) 0 0 0 0) as [[r0 n] cx] eqn:Eg.
+    destruct r0.
+    + pose proof (g_from_le _ _ entry_iter_next _ _ _ _ _ _ _ _ _ _ Eg) as Hn. cbn [Nat.add] in Hn.
+      rewrite (g_from_final _ _ entry_iter_ext entry_iter_next _ _ _ _ _ _ _ _ _ _ Eg ltac:(discriminate) more).
+      rewrite skipn_app_le by exact Hn.
+      set (rest := skipn n p) in *.
+      destruct (cleft cx <=? zlen rest) eqn:E1; [|injection H as <- _ _; congruence].
+      rewrite zlen_app. pose proof (zlen_nonneg more).
+      destruct (cleft cx <=? zlen rest + zlen more) eqn:E2; [|lia].
+      rewrite firstn_app_le; [exact H|]. unfold zlen in E1. lia.
+    + injection H as <- _ _. congruence.
+    + rewrite (g_from_final _ _ entry_iter_ext entry_iter_next _ _ _ _ _ _ _ _ _ _ Eg ltac:(discriminate) more).
+      exact H.
+Qed.
+
+Corollary primm_chunk_independent mode tags input chunks :
+  chunking_of input chunks -> feed0 (primm_step mode tags) None chunks = primm_step mode tags None input.
+Proof. apply coherent_implies_chunk_independent. apply primm_coherent. Qed.
+
+(* p [13] EXPLICIT PInt, PInt ::= INTEGER: ad 03 02 01 05, one octet at a time *)
+Example primm_session :
+  feed0 (primm_step 1 [8]) None (bytewise [173; 3; 2; 1; 5; 77]) = (OK, 5%nat, Some [5]) /\
+  primm_step 1 [8] None [173; 3; 2; 1; 5; 77] = (OK, 5%nat, Some [5]) /\
+  primm_step (-1) [8] None [142; 1; 5] = (OK, 3%nat, Some [5]) /\
+  primm_step 0 [8] None [142; 1; 5] = (FAIL, 0%nat, None).
+Proof. repeat split; vm_compute; reflexivity. Qed.
